@@ -11,6 +11,8 @@ package rules
 //	R-C09-3  c09_filter.go state carry-over in the filter's reload
 //	R-C09-4  c09_mqtt.go   MQTT limiter wiring + the 1-permit / N-permit wrappers
 //	R-C09-5  c09_filter.go configured timeoutDuration reaches the limiter's policy (added in the second pass)
+//	R-C09-6  ext2.go       (coordinator) default policy reference comparison in isSamePolicy
+//	R-C09-7  c09_lock.go   dimensions of the multi limiter are independent (added in the third pass)
 //
 // Mutants tried in /tmp/vw/C09/repo (each compiles; one at a time, on top of fix-1 so that the
 // exit code is meaningful; diffs in /tmp/vw/C09/out/mutants) → obligation that fires:
@@ -75,6 +77,23 @@ package rules
 //	PB1  (preserving) default in the Policy literal, overridden `if setting != ""`
 //	PB2  (preserving) `timeout, err := ParseDuration(setting); if err != nil { timeout = default }`
 //
+// Third pass (round-3 seeded regressions /tmp/mut3/out/C09/{a,b}):
+//
+//	D1   round-3 a: wait loop of the multi limiter, `cycle += token / limit[i]` instead of a
+//	     per-dimension temporary                       → R-C09-7 |dimensions are combined without arithmetic accumulation
+//	D2   `timeToWait += wait` instead of the maximum   → same
+//	D3   `tmpCycle` hoisted out of the loop, `tmpCycle = tmpCycle + token/limit[i]` → same
+//	D4   `scale++` inside the maxTokens loop           → same
+//	PD1  (preserving) `var tmpCycle int` hoisted, assigned `cycle + …` in the loop; `timeToWait < wait`
+//	PD2  (preserving) reservation loop as `for i := 0; …; i++` with `rl.tokens[i] += count[i]`
+//	I1   round-3 b: `url.Init()` dropped in the inheriting branch of reload
+//	                                                   → R-C09-3 |every URL rule is initialised
+//	I2   `u.Init()` dropped from createRateLimiterForURL → same
+//	I3   `prev.Init()` instead of `url.Init()`         → same
+//	I4   separate init loop that skips rules without a policyRef → same
+//	PI1  (preserving) `url.Init()` moved behind setStateListenerForURL
+//	PI2  (preserving) one loop `for _, u := range rl.spec.URLs { u.Init() }` in front of the carry-over loop
+//
 // Not caught by design (arithmetic, see NotDecided): `tokens > maxTokens`, a wrong wait
 // computation, a dropped `rl.cycle = cycle` on the permit path, a wrong refresh period in the MQTT policies.
 //
@@ -126,6 +145,7 @@ func c09(c *core.Ctx) string {
 	c.Rule("R-C09-3", "filter reload carry-over: a limiter is taken from the previous generation only where URLRule.DeepEqual and the policy comparison hold, whenever they hold it is taken, the carried limiter is live (non-nil), no new limiter is created after a carry-over, and every URL rule ends with a carried or a new limiter")
 	c.Rule("R-C09-4", "limiter wiring: RateLimiter.AcquirePermission charges 1 and AcquireNPermission(n) charges n; every MQTT limiter is built with timeout 0 (its wait is discarded), is configured with the rate of the unit it is charged in (1 per packet ↔ RequestRate, byteNum ↔ BytesRate, same order for the multi limiter), and Limiter.acquirePermission returns the verdict of the limiter it charged (true only when none is configured)")
 	c.Rule("R-C09-5", "policy translation: the timeout handed to the limiter constructor by the filter is the value parsed from the configured timeoutDuration; a built-in constant stands in only on paths where the setting is empty (or did not parse) — an explicit zero timeout is a legal policy and is not replaced by the default")
+	c.Rule("R-C09-7", "independent dimensions: in the acquire function of the multi-dimensional limiter no loop over the dimensions accumulates arithmetically (x += …, x = x + …, x++) into a scalar that lives across the iterations; dimensions are combined only by overwrite under a comparison (maximum wait), flags and early exits")
 	c.NotDecided = []string{
 		"headline clause: at most limitForPeriod releases per period and wait <= timeoutDuration (token/time arithmetic over arrival histories)",
 		"value semantics of URLRule.Match, URLRule.DeepEqual and of the policy comparison",
@@ -137,6 +157,7 @@ func c09(c *core.Ctx) string {
 	lim, fns := c09Locks(c)
 	if lim != nil {
 		c09Reserve(c, lim, fns)
+		c09Dimensions(c, lim, fns)
 	}
 	c09Handle(c)
 	c09Reload(c)
